@@ -89,7 +89,7 @@ class C14(F.PropCheck):
     pid = 'C14'; gen_groups = ['C14Vars']; prop_file = 'Properties_C14'
     IN = {'CFG': 0, 'SEG': 1, 'NEWCONN': 2}
     OUT = {0: 'SEG', 1: 'CMD', 2: 'FAULT'}
-    quick_cases = 1200; thorough_cases = 40000
+    quick_cases = 1200; thorough_cases = 8000
     trusted_extra = ['C14 driver harness/drv/c14.c + harness/wrap/c14_cfgmode_wrap.c (supla_esp_cfgmode.c compiled as is, accessor for the '
                      'private parser state); real connect/recv/disconnect callbacks, supla_esp_cfg_save on the flash double, MQTT build configuration; '
                      'segments are exact-size heap buffers; two builds: clang -O1 ASan+UBSan (stack-use-after-return on, -fwrapv, signed overflow '
@@ -111,7 +111,7 @@ class C14(F.PropCheck):
                                extra_flags=['-fsanitize-address-use-after-return=always', '-fwrapv', '-fno-sanitize=signed-integer-overflow'])
         if exe_a is None: return None, log
         srcs = F.device_sources('mqtt', exclude=('supla_esp_cfgmode',)) + EXTRA
-        flags = F.G.dev_flags(F.REPO, mqtt=True) + ['-g', '-O0', '-w', '-fwrapv', '-DC14_POISON']
+        flags = F.G.dev_flags(F.REPO, mqtt=True) + ['-gdwarf-4', '-O0', '-w', '-fwrapv', '-DC14_POISON']
         exe_b, log = build_plain('c14plain', DRV, srcs, flags)
         if exe_b is None: return None, log
         self.exe_plain = exe_b
@@ -421,7 +421,9 @@ class C14(F.PropCheck):
         rc, out, err = F.sh(['valgrind', '-q', '--error-exitcode=97', '--track-origins=no', self.exe_plain], inp=inp, timeout=1500, env=env)
         res = F.parse_outputs(out)
         bad = [c for c in cases if res.get(c.id, ('missing', []))[0] == 'crash exit=97']
-        ctx['extra']['valgrind_cases'] = len(cases); ctx['extra']['valgrind_reports'] = len(bad)
+        ran = len([c for c in cases if c.id in res])
+        if ran < len(cases): ctx['problems'].append('valgrind: only %d of %d cases ran (%s)' % (ran, len(cases), err.strip().splitlines()[-1][:120] if err.strip() else ''))
+        ctx['extra']['valgrind_cases'] = ran; ctx['extra']['valgrind_reports'] = len(bad)
         for c in bad[:5]:
             ctx['alarms'].append((c, 'valgrind: conditional jump or read depends on uninitialised memory while parsing the request (plain build)'))
 
